@@ -26,6 +26,7 @@ func c11Extra(r *Run) {
 		"C11.R6": "the two-step rollback write (status, then spec) is recomputed from scratch: guarded by a whole-object diff, failed flag read from the replica set, spec write follows a successful status write",
 	})
 	c11ReadErrors(r)
+	c11MoreImports(r)
 }
 
 // errorResultIndex returns the index of the (last) error result of a signature, or -1.
